@@ -224,6 +224,22 @@ func (c *SpecCtx) lookupIdent(name string) (Val, bool) {
 			return c.callArgs[k], true
 		}
 	}
+	if name == "rangevisited" && c.block != nil && c.f != nil {
+		// the set of keys already visited by the map iteration of the loop whose header is c.block
+		for _, ins := range c.block.Instrs {
+			if nx, ok := ins.(*ssa.Next); ok && !nx.IsString {
+				if rg, ok := nx.Iter.(*ssa.Range); ok {
+					if mt, ok := rg.X.Type().Underlying().(*types.Map); ok {
+						if it, ok := c.f.env[nx.Iter]; ok {
+							ks, _ := c.f.mapSorts(mt)
+							srt := fmt.Sprintf("(Array %s Bool)", ks)
+							return Val{S: srt, E: sel2(c.f.vc.cur(c.heap, q("E mapvisited "+ks), srt), pref(it.E), "0")}, true
+						}
+					}
+				}
+			}
+		}
+	}
 	if name == "rangepos" && c.block != nil && c.f != nil {
 		// byte position of the string iterator of the loop whose header is c.block
 		for _, ins := range c.block.Instrs {
